@@ -918,9 +918,17 @@ struct VM : VMBase
       // Quiescent point: everything this thread can see has been flushed; give the backend idle
       // polls (it reclaims contexts only when idle) and compare the number of contexts it retains
       // with the number of live threads that have logged.
+      // The wait is progress based, not time based: as long as the backend still writes statements (without a grace period
+      // flush_log() covers the caller's statements only, and with a soft limit of a few events every statement costs a pass
+      // over all queues: hundreds of exited threads take hundreds of thousands of backend steps to drain) or the surplus keeps
+      // shrinking, it keeps waiting — a fixed 60 x 20 us wait raised a false alarm at VERIF_SEED=14 and 17. It gives up after
+      // 200 rounds in which nothing was written and nothing reclaimed.
       int64_t expected = live_logged_threads;
       int64_t seen = -1;
-      for (int round = 0; round < 60; ++round)
+      int64_t best_surplus = INT64_MAX;
+      size_t events_seen = H.ev.size();
+      int stale = 0;
+      for (int round = 0; round < 20000; ++round)
       {
         expected = live_logged_threads; // (a long-lived thread may log for the first time while we wait)
         int64_t n = 0;
@@ -928,6 +936,16 @@ struct VM : VMBase
           [&n](quill::detail::ThreadContext*) { ++n; });
         seen = n;
         if (n == expected)
+        {
+          break;
+        }
+        if (n - expected < best_surplus || H.ev.size() != events_seen)
+        {
+          best_surplus = std::min(best_surplus, n - expected);
+          events_seen = H.ev.size();
+          stale = 0;
+        }
+        else if (++stale >= 200)
         {
           break;
         }
